@@ -527,3 +527,19 @@ Example version_examples :
   tuple_geb [0; 20] [0; 20; 0] = false /\ tuple_geb [0; 100; 0] [0; 20; 0] = true /\
   tuple_geb [1] [0; 20; 0] = true.
 Proof. repeat split; vm_compute; reflexivity. Qed.
+
+(** the five reply parsers on the printed reply grammars, in one statement *)
+Lemma parsers_total_lemma :
+  (forall n r rest, wf_digits n = true -> wf_rgb r = true ->
+     findall_rgb (print_rgb n r ++ rest) 0 = (n, bs "rgb:" ++ rgb_body r) :: findall_rgb rest 0) /\
+  (forall r, wf_rgb r = true -> x_parse_color (bs "rgb:" ++ rgb_body r) = Some (exp_rgb r)) /\
+  (forall x follow, wf_xtv x = true -> follow_ok follow ->
+     parse_xtversion (print_xtv x ++ follow) = Some (x_name x, x_ver x)) /\
+  (forall n hw rest, wf_winops hw = true ->
+     parse_xtwinops n (print_winops n hw ++ rest) = Some (dec_int (fst hw), dec_int (snd hw))) /\
+  (forall k rest, wf_kitty k = true ->
+     parse_kitty_reply (print_kitty k ++ rest) = Some (k_id k, k_msg k)).
+Proof.
+  exact (conj findall_print (conj x_parse_color_wf (conj parse_xtversion_print
+          (conj parse_xtwinops_print parse_kitty_print)))).
+Qed.
